@@ -216,7 +216,7 @@ def inst_C14(profile):
 
 PROOF_IMPORTS = ["Bits", "Codec", "Tables", "Spec", "Derive", "C05Check", "SeqModel", "SeqProofs", "SeqProofs2",
                  "SymMap", "C20Check", "IterProofs", "KmerModel", "KmerProofs", "KmerProofs2", "OrderProofs",
-                 "OrderKmer", "Rev2Bit", "KmerDna", "IupacProofs", "Translate", "CodonTable"]
+                 "OrderKmer", "Rev2Bit", "KmerDna", "IupacProofs", "Translate", "CodonTable", "DeriveProofs"]
 
 def _c16(ctx, spec):
     from .progchecks import c16_programs
@@ -244,6 +244,7 @@ def inst_C17(profile):
                 "witness": "width_witness width_none width_attr",
                 "witness_meaning": "(#[bits] attribute or None, largest discriminant) where the compiled parse_width "
                                    "differs from the specification"})
+    obs[-1]["lift"] = ["C17.C17_width_table_meets_specification width_none width_attr @INST"]
     ds = write_decls()
     for c, d in ds.items():
         if d is not None:
@@ -354,7 +355,12 @@ REGISTRY = {
                      "display characters, optional width), compiled with the real derive in dev and release, dumped over "
                      "all 256 bytes and compared with the Gallina derive model applied to the same declaration; malformed "
                      "declarations must be rejected at their own lines"),
-    "C18": dict(theorems=[], instances=okb, generators=[(c, P.gen_C18) for c in ALL]),
+    "C18": dict(theorems=theorems_of("C18"), imports=PROOF_IMPORTS + ["Serde"],
+                extra_imports=["From BioSeqProps Require Import C18."],
+                instances=okb, generators=[(c, P.gen_C18) for c in ALL],
+                assumptions=["PARTIAL: proved at serde's data-model level only; the byte encodings of bincode and "
+                             "serde_json and bitvec's Deserialize validation are third-party code, exercised by the "
+                             "correspondence (both formats, heads 0 and non-zero, all storage types) but not proved"]),
     "C19": dict(theorems=theorems_of("C19"), imports=PROOF_IMPORTS,
                 extra_imports=["From BioSeqProps Require Import C19."],
                 instances=inst_C19, generators=[("dna", P.gen_C19_conv)] + [(c, P.gen_C19_trim) for c in ALL]),
